@@ -412,7 +412,11 @@ func capN(n int) int {
 }
 
 // c01c: value provenance per kind.
-func c01c(c *Ctx, a *absVariant) {
+func c01c(c *Ctx, a *absVariant) { valueProvenance(c, a, "C01-c", false) }
+
+// valueProvenance is rule C01-c; with terminalsOnly it is the clause "matched values are the original bytes" of C17
+// (a terminal returns the slice of the input between its entry position and the position it advanced to).
+func valueProvenance(c *Ctx, a *absVariant, rule string, terminalsOnly bool) {
 	r := c.R
 	vn := a.V.Name
 	type spec struct{ kind string } // terminal | nilalways | accum | child | action
@@ -428,9 +432,12 @@ func c01c(c *Ctx, a *absVariant) {
 	for _, fn := range a.sortedNames() {
 		res := a.Res[fn]
 		kind, known := table[fn]
+		if terminalsOnly && kind != "terminal" {
+			continue
+		}
 		w := a.V.Where(res.Fn.Pos())
 		if !known {
-			r.Unk("C01-c", "T."+fn+":value", vn, w, "evaluator not in the value-provenance table")
+			r.Unk(rule, "T."+fn+":value", vn, w, "evaluator not in the value-provenance table")
 			continue
 		}
 		var bad []string
@@ -473,9 +480,9 @@ func c01c(c *Ctx, a *absVariant) {
 		}
 		sort.Strings(bad)
 		if len(bad) > 0 {
-			r.Bad("C01-c", "T."+fn+":value", vn, w, bad[0])
+			r.Bad(rule, "T."+fn+":value", vn, w, bad[0])
 		} else {
-			r.Ok("C01-c", "T."+fn+":value", vn, w, "kind="+kind)
+			r.Ok(rule, "T."+fn+":value", vn, w, "kind="+kind)
 		}
 	}
 }
